@@ -19,7 +19,8 @@ func init() {
 			"(A) the session cookie literal has HttpOnly=true, Path=/, Secure=!testOverride, Expires=now+configured lifetime, the configured name and a fresh UUID value; " +
 			"(R) the session cookie is dropped from the forwarded request (string-equality truth table), other client cookies are kept, the jar consulted and the jar stored into are the caller's own session's, the cookie URL is the request's own. " +
 			"Not decided: cookiejar matching rules, LRU eviction order, expiry arithmetic. " +
-			"The shim's open endpoint restores r.URL from the body before it delegates to the handler wrapped by the session wrapper, so path-scoped cookies are looked up for the websocket's real URL.",
+			"The shim's open endpoint restores r.URL from the body before it delegates to the handler wrapped by the session wrapper, so path-scoped cookies are looked up for the websocket's real URL. " +
+			"The session jar is updated before the header is released to the wrapped writer; the shim dials with DefaultDialer or a jar-less dialer.",
 		Assumptions: []string{"net/http/cookiejar implements RFC 6265 matching", "groupcache lru evicts least-recently-used entries"},
 		Run:         runC10,
 	})
@@ -155,6 +156,55 @@ func runC10(c *Ctx) {
 		hit, path := w.FromBlock(wr.Blocks[0])
 		c.Check("C10.S", "Write:header-first", p, wr.Pos(), hit == nil, "while the header is unwritten, Write reaches wrapped.Write only through the writer's own WriteHeader", "Write can reach wrapped.Write without the writer's WriteHeader having run ("+PathString(p, path)+"): the wrapped writer sends the header with the backend's Set-Cookie intact")
 	}
+	// the jar is updated before the header (with the session cookie) is released downstream
+	if wh := p.Func("agent/sessions.(*sessionResponseWriter).WriteHeader"); wh != nil {
+		scs := Calls(wh, "(net/http.CookieJar).SetCookies")
+		bad := ""
+		for _, sc := range scs {
+			// no forwarding of the status may precede the store on a path that reaches it
+			for _, fwd := range Calls(wh, "(net/http.ResponseWriter).WriteHeader") {
+				if PathOf(Args(CallOf(fwd))[1]) != P(wh, 1) {
+					continue
+				}
+				if h, _ := (&Walk{Target: func(i ssa.Instruction) bool { return i == sc }}).FromInstr(fwd); h != nil {
+					bad = "wrapped.WriteHeader at " + p.Pos(fwd.Pos()) + " runs before SetCookies at " + p.Pos(sc.Pos())
+				}
+			}
+		}
+		c.Check("C10.S", "WriteHeader:jar-updated-before-forward", p, wh.Pos(), len(scs) >= 1 && bad == "", "the intercepted cookies are stored in the session jar before the header is handed to the wrapped writer: a follow-up request of the same session finds them", "the session jar is updated after the header was released ("+bad+"): the client can send its next request (with the session cookie it just got) before the backend's cookies are in the jar, and the backend sees that request without them")
+	}
+	// the shim dials without a cookie jar of its own (a shared jar would replay one session's cookies to another)
+	if nc := p.Func("agent/websockets.NewConnection"); nc != nil {
+		bad := ""
+		for _, d := range Calls(nc, "(*github.com/gorilla/websocket.Dialer).Dial", "(*github.com/gorilla/websocket.Dialer).DialContext") {
+			recv := Args(CallOf(d))[0]
+			okd := false
+			for _, r := range Roots(recv) {
+				switch x := r.(type) {
+				case *ssa.Global:
+					if x.Pkg != nil && x.Pkg.Pkg.Path() == "github.com/gorilla/websocket" && x.Name() == "DefaultDialer" {
+						okd = true
+					}
+				case *ssa.UnOp:
+					if g, isG := x.X.(*ssa.Global); isG && g.Pkg != nil && g.Pkg.Pkg.Path() == "github.com/gorilla/websocket" && g.Name() == "DefaultDialer" {
+						okd = true
+					}
+				case *ssa.Alloc:
+					// a local Dialer literal: no Jar field set
+					if _, has := LiteralField(x, "Jar"); !has {
+						okd = true
+					}
+				}
+			}
+			if !okd {
+				bad = "the websocket is dialled with " + PathOf(recv) + " at " + p.Pos(d.Pos())
+			}
+		}
+		for _, st := range StoresToField(p.FuncsIn("agent/websockets"), "github.com/gorilla/websocket.Dialer", "Jar") {
+			bad = "a Dialer.Jar is set at " + p.Pos(st.Pos())
+		}
+		c.Check("C10.S", "shim-dial:no-shared-jar", p, nc.Pos(), bad == "", "the backend websocket is dialled with gorilla's DefaultDialer (or a local Dialer without Jar): handshake cookies are exactly those restored for this session", "the shim's websocket dialer may carry a cookie jar ("+bad+"): gorilla stores every handshake's Set-Cookie in it and replays them on every later handshake, whichever session it belongs to")
+	}
 	// no other methods
 	for _, t := range ResponseWriterImpls(p) {
 		if NamedTypeRel(t) != T {
@@ -163,7 +213,12 @@ func runC10(c *Ctx) {
 		extra := ""
 		ms := types.NewMethodSet(types.NewPointer(t))
 		for i := 0; i < ms.Len(); i++ {
-			switch n := ms.At(i).Obj().Name(); n {
+			if fobj, isF := ms.At(i).Obj().(*types.Func); isF {
+				if IsNewHelper(p.SSA.FuncValue(fobj)) {
+					continue // an extracted part of one of the three methods: analysed as part of its caller
+				}
+			}
+			switch n := objName(ms.At(i).Obj()); n {
 			case "Header", "Write", "WriteHeader":
 			default:
 				extra += " " + n
